@@ -36,7 +36,7 @@ theorem asm_format_writes_valid_agp (inFmt : Fmt) (asmName : Str) (lines : List 
       (GapsStrict asm → ValidAgp true text (agpObjects asm)) := by
   obtain ⟨asm, hp, _, hw⟩ := (processFh_ok_iff _ _ _ _ _ _ _).1 h
   have hrows := parseFh_rowsParsed hp
-  have hhdr : ∀ x ∈ asm.header, '\n' ∉ x := fun x hx => (parseFh_headerOk hp x hx).no_nl
+  have hhdr : ∀ x ∈ asm.header, '\n' ∉ x := fun x hx => C06.HeaderOk.no_nl (parseFh_headerOk hp x hx)
   have hs : ∀ s ∈ asm.scaffolds, ∀ r ∈ s.rows, StrandOk r := fun s hs r hr => (hrows s hs r hr).strandOk
   have htext : ∀ ls, formatAgp asm = .ok ls → text = ls.flatten := by
     intro ls hls
@@ -47,7 +47,7 @@ theorem asm_format_writes_valid_agp (inFmt : Fmt) (asmName : Str) (lines : List 
     rw [htext ls hls]; exact hv
   · intro hg
     obtain ⟨ls, hls, hv⟩ := formatAgp_validAgp true asm hs
-      (fun _ s hs r hr => rowStrict_of_parsed (hrows s hs r hr) (fun g e => hg s hs g (e ▸ hr))) hhdr
+      (fun _ s hs r hr => rowStrict_of_parsed (hrows s hs r hr) (hg s hs r hr)) hhdr
     rw [htext ls hls]; exact hv
 
 /-- The whole run with output format AGP, any number of input files, failing or not: what is on the output handle at
@@ -106,12 +106,27 @@ private def lines1 : List Str :=
 private def tpf1 : List Str :=
   ["?\tc:1-5\ts1\tPLUS\n".toList, "GAP\tTYPE-2\t3\n".toList, "?\tc:4-7\ts1\tMINUS\n".toList]
 
+private def asm1 : Assembly :=
+  { name := ['a'], header := ["made by hand".toList],
+    scaffolds := [
+      { name := "s1".toList,
+        rows := [.frag { oid := 0, name := ['c'], start := 1, stop := 5, strand := 1, tags := ["s1".toList] },
+                 .gap { length := 3, gapType := "scaffold".toList },
+                 .frag { oid := 1, name := ['c'], start := 4, stop := 7, strand := -1 }] },
+      { name := "s2".toList, rows := [.frag { oid := 2, name := ['c'], start := 5, stop := 7, strand := 0 }] }] }
+private def asm2 : Assembly :=
+  { name := ['b'],
+    scaffolds := [
+      { name := "s1".toList,
+        rows := [.frag { oid := 0, name := ['c'], start := 1, stop := 5, strand := 1 },
+                 .gap { length := 3, gapType := "scaffold".toList },
+                 .frag { oid := 1, name := ['c'], start := 4, stop := 7, strand := -1 }] }] }
+
 example : processFh .AGP ['a'] lines1 (some .AGP) false = .ok (lines1.flatten, []) := by decide +kernel
-example : ∃ asm, parseFh .AGP ['a'] lines1 = .ok asm ∧ GapsStrict asm ∧
-    agpObjects asm = [("s1".toList, 12), ("s2".toList, 3)] :=
-  ⟨_, rfl, by decide +kernel, by decide +kernel⟩
-example : ∃ asm, parseFh .TPF ['b'] tpf1 = .ok asm ∧ GapsStrict asm ∧ agpObjects asm = [("s1".toList, 12)] :=
-  ⟨_, rfl, by decide +kernel, by decide +kernel⟩
+example : parseFh .AGP ['a'] lines1 = .ok asm1 ∧ GapsStrict asm1 ∧
+    agpObjects asm1 = [("s1".toList, 12), ("s2".toList, 3)] := by decide +kernel
+example : parseFh .TPF ['b'] tpf1 = .ok asm2 ∧ GapsStrict asm2 ∧ agpObjects asm2 = [("s1".toList, 12)] := by
+  decide +kernel
 example : outFmtOf none (some "out.agp".toList) = .ok .AGP ∧ outFmtOf none none = .ok .AGP := by decide
 example : (asmFormat {} [("a.agp".toList, lines1), ("b.tpf".toList, tpf1)] []).error = none := by decide +kernel
 
@@ -129,10 +144,9 @@ example : processFh .AGP ['g'] ["s1\t1\t5\t1\tW\tc\t1\t5\t+\n".toList, "s1\t6\t5
 /-- FINDING (object names; real run `asm-format nc.agp`): lines of one object that are not contiguous (`s1`, `s2`,
     `s1`) are read as THREE scaffolds, two of them named `s1`, and written as such: the output repeats the object
     `s1`, each copy tiled from 1.  `ValidAgp` holds (per scaffold), a one-record-per-object reading of AGP does not. -/
-example : ∃ asm, parseFh .AGP ['n'] ["s1\t1\t5\t1\tW\tc\t1\t5\t+\n".toList, "s2\t1\t5\t1\tW\td\t1\t5\t+\n".toList,
-      "s1\t1\t5\t1\tW\te\t1\t5\t+\n".toList] = .ok asm ∧
-    agpObjects asm = [("s1".toList, 5), ("s2".toList, 5), ("s1".toList, 5)] :=
-  ⟨_, rfl, by decide +kernel⟩
+example : (parseFh .AGP ['n'] ["s1\t1\t5\t1\tW\tc\t1\t5\t+\n".toList, "s2\t1\t5\t1\tW\td\t1\t5\t+\n".toList,
+      "s1\t1\t5\t1\tW\te\t1\t5\t+\n".toList]).map agpObjects =
+    .ok [("s1".toList, 5), ("s2".toList, 5), ("s1".toList, 5)] := by decide +kernel
 
 /-- FINDING (several input files; real run `asm-format a.agp a.agp`): the objects of every file are written one
     file after the other, whatever their names -/
